@@ -24,7 +24,8 @@ PLAN = {
 
 ASSUMPTIONS = [
     "nondeterminism sources sampled: PYTHONHASHSEED (numeric values and 'random'), process identity / object "
-    "addresses (fresh interpreters), repeated computation in one process on freshly built objects",
+    "addresses (fresh interpreters), repeated computation in one process on freshly built objects, what ran earlier "
+    "in the process (per-interpreter visiting order), log verbosity (every third interpreter at LOGLEVEL=DEBUG)",
     "corpus = every non-empty .cif/.pdb/.cif.gz under /repo/tests (quick tier skips the slow 1gid.cif.gz), each "
     "with find_gaps in {False, True}; generated secondary structures are seeded and biased towards several "
     "independent knotted groups so that the all-dot-brackets list has >= 2 members",
@@ -137,6 +138,14 @@ def derived_items(tier, seed):
                             "v2": True, "v2_repeat": False, "cli": False,
                             "lib": PLAN[tier]["cli_all_variants"] and rep == 0, "lib_repeat": False, "cost": 400000})
                 k += 1
+            # twins: the same residue renamed to one non-standard name, fully and partly modelled
+            s = rng.stream(NAME, tier, seed, k, "derived")
+            gs = s.getrandbits(48)
+            for variant in ("modres_full", "modres_part"):
+                out.append({"id": "derived/%d-%s-%s" % (k, src.split(".")[0][:6], variant), "type": "derived", "source": path,
+                            "variant": variant, "gen_seed": gs, "find_gaps": False, "as_cif": False,
+                            "v2": False, "v2_repeat": False, "cli": False, "lib": False, "lib_repeat": False, "cost": 400000})
+                k += 1
     return out
 
 
@@ -166,6 +175,14 @@ def shard(items, n):
     return [sorted(b, key=lambda d: d["id"]) for b in bins]
 
 
+def loglevel_of(hs):
+    """Log verbosity of the interpreter that runs under hash seed `hs` (a pure function of the seed, so that a
+    replay with the same seeds reproduces it): every third numeric seed DEBUG, 'random' INFO, the rest silent."""
+    if hs == "random":
+        return "INFO"
+    return "DEBUG" if int(hs) % 3 == 2 else "off"
+
+
 def launch(jobs, workers, timeout, tmp):
     """jobs: list of (tag, hashseed, manifest path, out path[, extra env]).  Runs at most `workers` at a time."""
     pending = list(jobs)
@@ -178,6 +195,8 @@ def launch(jobs, workers, timeout, tmp):
             tag, hs, mpath, opath = job[:4]
             env = dict(os.environ)
             env["PYTHONHASHSEED"] = hs
+            env["VERIF_C14_LOGLEVEL"] = loglevel_of(hs)
+            env.pop("LOGLEVEL", None)
             env.pop("VERIF_KEEP_HASHSEED", None)
             env.pop("VERIF_C14_ORDER", None)
             env.pop("VERIF_C14_STOP_AFTER", None)
@@ -505,7 +524,9 @@ def check(tier, seed, workers):
         "cells_differing": len(violations),
         "runs_per_hour": int(len(seeds) * plan["shards"] / max(wall, 1e-6) * 3600),
         "simulated_time": "none: no anchored code path reads a clock",
-        "fault_kinds_fired": {"hashseed.numeric": len(seeds) - 1, "hashseed.random": 1, "fresh_interpreter": len(seeds) * plan["shards"]},
+        "fault_kinds_fired": {"hashseed.numeric": len(seeds) - 1, "hashseed.random": 1, "fresh_interpreter": len(seeds) * plan["shards"],
+                              "loglevel.DEBUG": sum(1 for h in seeds + light_seeds if loglevel_of(h) == "DEBUG"),
+                              "loglevel.INFO": sum(1 for h in seeds + light_seeds if loglevel_of(h) == "INFO")},
         "real_vs_stub": {"real": ["everything: rnapolis, pulp, the bundled CBC binary, mmcif, pandas, orjson"], "stub": []},
     }
     runner.write_evidence(NAME, tier, seed, LEVEL, coverage, wall, len(violations), ASSUMPTIONS)
